@@ -39,6 +39,7 @@ class StateProp:
         self.error_value = error_value
         self.hier = set(hierarchy)
         self.memo = {}
+        self.pairs = {}              # memo key -> {(token, return class)}; class: 0, 'nz' or '?'
         self.active = set()
         self.bare_error_sites = {}   # (fn key) -> [node] bare assignments of the error constant
         self.calls_seen = {}         # (fn key, in const) -> set of callee qn reached
@@ -66,6 +67,32 @@ class StateProp:
         self.memo[mkey] = out
         return out
 
+    def run_pairs(self, fn, in_tok):
+        """(post-state token, return-value class) pairs of fn: class 0 = returns zero, 'nz' = returns
+        non-zero (e.g. `return error(..)`), '?' = unknown.  Lets `if (handler(atts)) return 1;` keep
+        the error exits of the callee apart from its normal exits."""
+        out = self.run(fn, in_tok)
+        mkey = (fn.key, in_tok, ())
+        return self.pairs.get(mkey) or {(t, "?") for t in out}
+
+    def _ret_class(self, expr, toks, last_call, last_rets):
+        """return class per token for `return expr;`"""
+        res = {}
+        k = expr.get("k") if expr is not None else None
+        for t in toks:
+            if expr is None:
+                res[t] = {"?"}
+            elif k == "IntegerLiteral":
+                res[t] = {0 if expr.get("v") == 0 else "nz"}
+            elif last_call is not None and expr.get("id") == last_call:
+                res[t] = set(last_rets.get(t, {"?"}))
+            elif k == "BinaryOperator" and expr.get("op") == "=" and self.is_state(expr["c"][0]) \
+                    and _const_of(expr["c"][1]) is not None:
+                res[t] = {0 if _const_of(expr["c"][1]) == 0 else "nz"}
+            else:
+                res[t] = {"?"}
+        return res
+
     def _pinned_locals(self, fn, pinned_by_name):
         res = {}
         if not pinned_by_name:
@@ -88,6 +115,7 @@ class StateProp:
         IN[cfg.entry] = {in_tok}
         work = [cfg.entry]
         exit_toks = set()
+        exit_pairs = set()
         callees = self.calls_seen.setdefault(mkey, set())
         iterations = 0
         while work:
@@ -97,6 +125,7 @@ class StateProp:
             b = work.pop()
             toks = set(IN[b])
             blk = cfg.blocks[b]
+            last_call, last_rets = None, {}
             for e in blk.get("el", []):
                 if not isinstance(e, int):
                     continue
@@ -104,6 +133,12 @@ class StateProp:
                 if n is None:
                     continue
                 k = n.get("k")
+                if k == "ReturnStmt":
+                    rc = self._ret_class((n.get("c") or [None])[0], toks, last_call, last_rets)
+                    for t, rs in rc.items():
+                        for r in rs:
+                            exit_pairs.add((t, r))
+                    continue
                 if k == "BinaryOperator" and n.get("op") == "=":
                     lhs, rhs = n["c"]
                     if self.is_state(lhs):
@@ -125,6 +160,7 @@ class StateProp:
                         if callee == self.error_fn:
                             toks = {("c", self.error_value, "error")}
                             callees.add(callee)
+                            last_call, last_rets = n["id"], {("c", self.error_value, "error"): {"nz"}}
                         else:
                             cand = [f for f in self.facts.fns(callee)
                                     if f.key == n.get("calleeKey")]
@@ -132,16 +168,16 @@ class StateProp:
                             if cand and (not self.hier or ccls in self.hier):
                                 callees.add(callee)
                                 new = set()
+                                last_call, last_rets = n["id"], {}
                                 for t in toks:
                                     if t == TOP:
-                                        sub = self.run(cand[0], TOP)
+                                        sub = self.run_pairs(cand[0], TOP)
                                     else:
-                                        sub = self.run(cand[0], ("c", t[1], "in"))
-                                    for s in sub:
-                                        if s != TOP and s[2] == "in":
-                                            new.add(t)          # unchanged by the callee
-                                        else:
-                                            new.add(s)
+                                        sub = self.run_pairs(cand[0], ("c", t[1], "in"))
+                                    for s, r in sub:
+                                        m = t if (s != TOP and s[2] == "in") else s   # unchanged by the callee
+                                        new.add(m)
+                                        last_rets.setdefault(m, set()).add(r)
                                 toks = new
             # successors
             succs = cfg.succ.get(b, [])
@@ -150,6 +186,23 @@ class StateProp:
                     exit_toks |= toks
                 continue
             edges = [(s, toks) for s in succs]
+            if blk.get("termK") == "IfStmt" and blk.get("cond") is not None and last_call is not None:
+                cond = nodes.get(blk["cond"])
+                neg = False
+                while cond is not None and cond.get("k") == "UnaryOperator" and cond.get("op") == "!":
+                    neg = not neg
+                    cond = (cond.get("c") or [None])[0]
+                raw = list(blk.get("succ", []))
+                if cond is not None and cond.get("id") == last_call and len(raw) == 2:
+                    tt = {t for t in toks if last_rets.get(t, {"?"}) & {"nz", "?"}}
+                    ff = {t for t in toks if last_rets.get(t, {"?"}) & {0, "?"}}
+                    if neg:
+                        tt, ff = ff, tt
+                    edges = []
+                    for idx, ts in ((0, tt), (1, ff)):
+                        s = raw[idx]
+                        if s is not None and s >= 0 and ts:
+                            edges.append((s, ts))
             if blk.get("termK") == "SwitchStmt" and blk.get("cond") is not None:
                 cond = nodes.get(blk["cond"])
                 sel = None
@@ -185,6 +238,11 @@ class StateProp:
                 if not ts <= IN[s]:
                     IN[s] |= ts
                     work.append(s)
+        for t in exit_toks:
+            if not any(p[0] == t for p in exit_pairs):
+                exit_pairs.add((t, "?"))
+        if not pinned_by_name:
+            self.pairs[(fn.key, in_tok, ())] = {p for p in exit_pairs if p[0] in exit_toks}
         return exit_toks
 
 
@@ -293,8 +351,37 @@ def check_automaton(ctx, rule, A, known_unreachable_ok=()):
             bad.append(("end", "", str(x)))
     ctx.report(rule, "%s:error-absorbing" % A.name, not bad,
                msg="the error state can be left: %s" % bad if bad else "", detail={"escapes": bad})
-    # depth discipline
-    for s, depths in sorted(reach_states.items()):
+    # depth discipline.  A start transition that leaves the state unchanged (an element accepted inside
+    # itself to any depth) is leniency towards malformed documents, not a mis-parse of a valid one: the
+    # property allows accepting more than the grammar, so such self-nesting edges are reported as notes
+    # and left out; what is decided is that no *end* transition returns to the wrong level.
+    lenient = sorted({(e[0][0], e[1][1]) for e in edges
+                      if e[1][0] == "start" and e[3] != TOP and e[2][0] == e[0][0] and e[0][0] != A.error})
+    if lenient:
+        ctx.note("%s: %d start transition(s) keep the state (self-nesting accepted): %s" % (
+            A.name, len(lenient), ", ".join("%s/%s" % (A.sname(a), A.tname(b)) for a, b in lenient[:12])))
+        lset = set(lenient)
+        succ = {}
+        for e in edges:
+            if e[1][0] == "start" and (e[0][0], e[1][1]) in lset and e[2][0] == e[0][0]:
+                continue
+            if e[3] != TOP and e[2][0] != A.error:
+                succ.setdefault(e[0], set()).add(e[2])
+        init = min((c for c in configs if len(c[1]) == 0 and c[0] == A.start_state), default=None)
+        seen2 = {init} if init is not None else set()
+        todo = list(seen2)
+        while todo:
+            c = todo.pop()
+            for d in succ.get(c, ()):
+                if d not in seen2:
+                    seen2.add(d)
+                    todo.append(d)
+        reach_depth = {}
+        for st_, stack_ in seen2:
+            reach_depth.setdefault(st_, set()).add(len(stack_))
+    else:
+        reach_depth = reach_states
+    for s, depths in sorted(reach_depth.items()):
         if s == A.error:
             continue
         key = "%s:depth:%s" % (A.name, A.sname(s))
